@@ -85,7 +85,8 @@ func (*baseExecutor) GetScanSlice(columnNames []string, tableMeta *types.TableMe
 				scanSlice = append(scanSlice, &scanVal)
 			}
 		default:
-			scanVal := sql.RawBytes{}
+			// nil, not empty: the scan leaves the destination untouched for NULL
+			var scanVal sql.RawBytes
 			scanSlice = append(scanSlice, &scanVal)
 		}
 	}
@@ -233,6 +234,13 @@ func (b *baseExecutor) containsPKByName(meta *types.TableMeta, columns []string)
 func getSqlNullValue(value interface{}) interface{} {
 	if value == nil {
 		return nil
+	}
+	if v, ok := value.(sql.RawBytes); ok {
+		if v == nil {
+			return nil
+		}
+		// RawBytes point into the driver's read buffer and are only valid until the next row is read
+		return append([]byte{}, v...)
 	}
 	if v, ok := value.(sql.NullString); ok {
 		if v.Valid {
